@@ -79,7 +79,8 @@ class ImageFormation(HoloPyObject):
                     schema.illum_wavelen.sel(illumination=illum).values)[0],
                 illum_polarization=ensure_array(
                     schema.illum_polarization.sel(illumination=illum).values))
-            this_scatterer = select_scatterer_by_illumination(scatterer, illum)
+            this_scatterer = select_scatterer_by_illumination(
+                scatterer, illum, this_schema.illum_wavelen)
             this_field = self._calculate_single_color_scattered_field(
                 this_scatterer, this_schema)
             field.append(this_field)
@@ -232,12 +233,15 @@ class ImageFormation(HoloPyObject):
         return method(original_coordinate_values)
 
 
-def select_scatterer_by_illumination(scatterer, illum):
+def select_scatterer_by_illumination(scatterer, illum, wavelen=None):
     select_parameters = {}
     for key, val in scatterer.parameters.items():
         selected_val = val
         if isinstance(val, dict) and illum in val.keys():
             selected_val = val[illum]
+        elif isinstance(val, dict) and wavelen in val.keys():
+            # values keyed by wavelength, channels labelled otherwise
+            selected_val = val[wavelen]
         elif isinstance(val, xr.DataArray):
             try:
                 selected_val = val.sel(illumination=illum).values
